@@ -302,3 +302,34 @@ contract(MT + '_pass_read_annotations2',
          note='loop1.post0-2: the FIRST slot named by (virtual SLOT) gets invoker = this function, whatever invoker it had before '
               '(an automatic pairing by name may have set one); every other slot keeps its invoker; if no slot has that name '
               'nothing is changed (and a warning is issued)')
+
+
+# ---- enumeration members: a block named after the member wins over the @MEMBER line of the enumeration's block -------------------
+MEM = 'node.members'
+contract(MT + '_apply_annotations_enum_members',
+         params={'self': 'MainTransformer', 'node': 'Enum|Bitfield', 'parent_block': 'GtkDocCommentBlock?'}, ghost={'K': 'int'},
+         props=('C03',),
+         requires=['all_distinct(node.members)',
+                   'implies(0 <= K and K < len(node.members) and self._blocks.get(node.members[K].symbol) is not None, '
+                   'options_ok(self._blocks.get(node.members[K].symbol)))'],
+         modifies=['*.doc', '*.doc_position', '*.version', '*.version_doc', '*.deprecated', '*.deprecated_doc', '*.stability',
+                   '*.stability_doc', '*.skip', '*.foreign', '*.is_constructor', '*.is_method', '*.set_property', '*.get_property',
+                   '*{}'],
+         loops={1: {'index': 'I1',
+                    'modifies': ['*.doc', '*.doc_position', '*.version', '*.version_doc', '*.deprecated', '*.deprecated_doc',
+                                 '*.stability', '*.stability_doc', '*.skip', '*.foreign', '*.is_constructor', '*.is_method',
+                                 '*.set_property', '*.get_property', 'm.attributes{}'],
+                    'var_types': {'m': 'Member'},
+                    'assume_item': ['implies(self._blocks.get(m.symbol) is not None, options_ok(self._blocks.get(m.symbol)))'],
+                    'invariant': ["implies(0 <= K and K < I1 and bool(self._blocks.get(%s[K].symbol)) and "
+                                  "ann(self._blocks.get(%s[K].symbol), 'skip'), %s[K].skip)" % (MEM, MEM, MEM)]}},
+         ensures={
+             'C03.enum_member.skip_on_the_members_own_block_takes_effect':
+                 "implies(0 <= K and K < len(%s) and bool(self._blocks.get(%s[K].symbol)) and "
+                 "ann(self._blocks.get(%s[K].symbol), 'skip'), %s[K].skip)" % (MEM, MEM, MEM, MEM),
+             'C03.enum_member.own_block_wins':
+                 "all_calls('_apply_annotations_annotated', 'arg_node is %s[local_I1] and arg_block is self._blocks.get(arg_node.symbol) "
+                 "and bool(arg_block)')" % MEM,
+         },
+         note='the generic metadata of a member comes from the block carrying its own C name '
+              'whenever such a block exists; the @MEMBER line of the enumeration block is only a fallback for the description')
